@@ -312,7 +312,8 @@ fn c17() -> (bool, String) {
         let vk = match VerifyingKey::from_encoded_point(&point) { Ok(k) => k, Err(_) => return (true, format!("{ctx}: returned public key is not a P-256 point")) };
         let mut input = vec![0x00u8]; input.extend_from_slice(&application); input.extend_from_slice(&challenge); input.extend_from_slice(&handle);
         input.push(0x04); input.extend_from_slice(&reg.public_key.x); input.extend_from_slice(&reg.public_key.y);
-        let sig = match Signature::from_slice(&reg.signature).or_else(|_| Signature::from_der(&reg.signature)) { Ok(s) => s, Err(_) => return (true, format!("{ctx}: registration signature is not an ECDSA signature")) };
+        // the signature field of the U2F raw-message format is an ANSI X9.62 (DER) signature, as in the authentication response
+        let sig = match Signature::from_der(&reg.signature) { Ok(s) => s, Err(_) => return (true, format!("{ctx}: registration signature ({} bytes) is not an X9.62 / DER encoded ECDSA signature", reg.signature.len())) };
         if vk.verify(&input, &sig).is_err() { return (true, format!("{ctx}: registration signature does not verify over 0x00 || application || challenge || key handle || public key")); }
         if reg.key_handle != handle { return (true, format!("{ctx}: response key handle differs")); }
         if store.items.lock().unwrap().len() != 1 || store.items.lock().unwrap()[0].credential_id.to_vec() != handle { return (true, format!("{ctx}: no credential stored for that key handle")); }
